@@ -45,7 +45,7 @@ func vpReadBack(m map[string]interface{}) (func(string, bool) bool, func(string,
 //vp:property C19
 //vp:set s 2 3
 //vp:set budget 200 1200
-//vp:bounds a template file of up to nine lines in a fixed order: compression (i:0 | i:1), allow font smoothing (i:0 | i:1), authentication level (i:0 | i:2 | i:3), desktopwidth (i:0 | i:1920), audiomode written with the string type (s:2), alternate shell (s: + 0..s symbolic printable bytes without blanks or colons), drivestoredirect (s:* | s:false | s: empty), an unknown setting, a comment line and a blank line; LF or CRLF line ends; with or without a UTF-8 byte order mark in front. Per path ONE of the seven settings runs through all its variants (absent included) while the other six are jointly absent or jointly present with fixed non-default values
+//vp:bounds a template file of up to nine lines in a fixed order: compression (i:0 | i:1), allow font smoothing (i:0 | i:1), authentication level (i:0 | i:2 | i:3), desktopwidth (i:0 | i:1920), audiomode written with the string type (s:2), alternate shell (s: + 0..s symbolic printable bytes without blanks or colons), drivestoredirect (s:* | s:false | s: empty), an unknown setting, a comment line and a blank line; LF or CRLF line ends; with or without a UTF-8 byte order mark in front; setting names in lower case or with a capital first letter. Per path ONE of the seven settings runs through all its variants (absent included) while the other six are jointly absent or jointly present with fixed non-default values
 //vp:assume koanf, its file provider and mapstructure are modelled at their API (see the head of this file) and compared with the real libraries on every explored path; a setting absent from a generated file is read back as its built-in default
 //vp:reach built kept
 func VP_C19_template() {
@@ -76,9 +76,18 @@ func VP_C19_template() {
 		return opts[i-1], i
 	}
 	var text string
+	// setting names are matched without regard to case (the repository's own sample template writes
+	// "Domain", "DesktopWidth"): written as the struct tags have them, or with a capital first letter
+	capital := vpBool("names-capitalised")
+	spell := func(key string) string {
+		if capital {
+			return string([]byte{key[0] - 'a' + 'A'}) + key[1:]
+		}
+		return key
+	}
 	add := func(key, tv string) {
 		if tv != "" {
-			text += key + ":" + tv + eol
+			text += spell(key) + ":" + tv + eol
 		}
 	}
 	if vpBool("byte-order-mark") {
@@ -100,7 +109,7 @@ func VP_C19_template() {
 	add("audiomode", audio)
 	_, shellI := pick("alternate-shell", 1, "s:")
 	if shellI == 1 {
-		text += "alternate shell:s:" + shell + eol
+		text += spell("alternate shell") + ":s:" + shell + eol
 	}
 	drive, driveI := pick("drivestoredirect", 1, "s:*", "s:false", "s:")
 	add("drivestoredirect", drive)
